@@ -439,6 +439,9 @@ func (vc *VC) zeroInitHeaps(elem types.Type) []string {
 	case *types.Struct:
 		var hs []string
 		for i := 0; i < u.NumFields(); i++ {
+			if u.Field(i).Name() == "_" {
+				continue // blank fields have no heap
+			}
 			hs = append(hs, fieldHeapName(elem, u.Field(i).Name()))
 		}
 		return hs
